@@ -305,6 +305,59 @@ def run_single_preemption(k, counter=[0]):
     return results, [expected, expected]
 
 
+STRING_PAIRS = 4
+
+
+def string_values(pair=0):
+    """two values, each with ONE long string (the string's document is evaluated once per look-ahead that reaches
+    it and once for the layout itself; a top-level string once only)"""
+    return [(['alpha ' * 20], ['bravo ' * 20]),
+            ('alpha ' * 20, {'k': b'bravo ' * 20}),
+            (('alpha ' * 12,), [[['bravo ' * 14]]]),
+            ({'a': 'alpha ' * 20}, 'bravo ' * 20)][pair]
+
+
+def string_points(idx, width=40, pair=0):
+    """indices (into the line events of the package) at which the solo print of string_values(pair)[idx] executes a
+    (file, line) pair for the first or for the second time, and the total"""
+    val = string_values(pair)[idx]
+    seen, pts, n = {}, [], [0]
+    import os as _os
+    L = sys.modules.get('prettyprinter.layout') or __import__('prettyprinter.layout', fromlist=['x'])
+    pkg_dir = _os.path.dirname(L.__file__) + _os.sep
+    from prettyprinter import pformat
+
+    def local(frame, event, arg):
+        if event == 'line':
+            key = (frame.f_code.co_filename, frame.f_lineno)
+            seen[key] = seen.get(key, 0) + 1
+            if seen[key] <= 2:
+                pts.append(n[0])
+            n[0] += 1
+        return local
+
+    def glob(frame, event, arg):
+        return local if event == 'call' and frame.f_code.co_filename.startswith(pkg_dir) else None
+    sys.settrace(glob)
+    try:
+        pformat(val, width=width)
+    finally:
+        sys.settrace(None)
+    return pts, n[0]
+
+
+def run_double_preemption(i, j, width=40, pair=0):
+    """thread 0 executes i package lines of its print and is preempted; thread 1 executes j lines of ITS print (of
+    another value) and is preempted; thread 0 runs to its end; thread 1 runs to its end -> (results, expected)"""
+    from prettyprinter import pformat
+    vals = string_values(pair)
+    ref = [pformat(v, width=width) for v in vals]
+    ctl = Controller(2, region='all')
+    fns = [(lambda v=v: pformat(v, width=width)) for v in vals]
+    results, used = ctl.run(fns, [0] * i + [1] * j, drain_order=[0, 1])
+    return results, ref
+
+
 def bounded_schedules(nthreads, max_run, switches):
     """all schedules made of at most [switches]+1 runs (a thread executing 0..max_run traced lines
     before being preempted by another thread); the remainder is drained sequentially"""
